@@ -275,7 +275,7 @@ LedCall(g, op, a, b) ==
               [g EXCEPT !.rootS[a] = @ - 1, !.rootS[b] = 1, !.made[b] = TRUE, !.fresh = b,
                         !.valS[b] = IF op # "MakeMutS" THEN g.valS[a] ELSE Zero1,
                         !.valW[b] = IF op # "MakeMutS" THEN g.valW[a] ELSE Zero1,
-                        !.dtor[b] = g.dtor[a],
+                        !.dtor[b] = NoScript,      \* (a destructor script belongs to the original, not to its clones)
                         !.mvd[a] = @ + 1]
          ELSE [EraseRec(g, a) EXCEPT !.rootS[a] = @ - 1, !.rootS[b] = 1, !.made[b] = TRUE, !.fresh = b,
                         !.valS[b] = g.valS[a], !.valW[b] = g.valW[a], !.dtor[b] = g.dtor[a],
